@@ -52,6 +52,8 @@ func checkC03(P *core.Program, R *core.Report) {
 	claims := []claim{
 		{"x/amm/types.Pool.CalcOutAmtGivenIn", "ideal", core.DLe, -1, "tokenOut ≤ exact zero-fee value of the same expression"},
 		{"x/amm/types.Pool.CalcInAmtGivenOut", "ideal", core.DGe, -1, "tokenIn ≥ exact zero-fee value of the same expression"},
+		{"x/amm/types.Pool.CalcOutAmtGivenIn", "curve", core.DLe, -1, "tokenOut ≤ the solver's result (every payout is priced on the curve)"},
+		{"x/amm/types.Pool.CalcInAmtGivenOut", "curve", core.DGe, -1, "tokenIn ≥ the solver's result (every charge is priced on the curve)"},
 		{"x/amm/types.Pool.SwapOutAmtGivenIn", "ref", core.DLe, 4, "oracle pool: tokenOut ≤ oracleOutAmount"},
 		{"x/amm/types.Pool.SwapInAmtGivenOut", "ref", core.DGe, 4, "oracle pool: tokenIn ≥ oracleInAmount"},
 	}
@@ -79,6 +81,41 @@ func checkC03(P *core.Program, R *core.Report) {
 				ok := (av.D == cl.want || av.D == core.DEq) && !E.Exhausted
 				R.Add("C03-direction", cl.key, construct, P.Pos(P.InstrPos(ret)), ok,
 					fmt.Sprintf("computed relation real %s ideal (want %s); value %s. %s", av.D, cl.want, av, notes(E)))
+			case "curve":
+				// reference = the value solveConstantFunctionInvariant returned in this function
+				var ref ssa.Value
+				for _, c := range core.Calls(fn) {
+					if P.CalleeKey(c.Common()) != "x/amm/types.solveConstantFunctionInvariant" {
+						continue
+					}
+					if v, ok := c.(ssa.Value); ok && v.Referrers() != nil {
+						for _, r := range *v.Referrers() {
+							if ex, ok := r.(*ssa.Extract); ok && ex.Index == 0 {
+								ref = ex
+							}
+						}
+					}
+				}
+				// the solver returns the change of the unknown balance: exact-out negates it to get the
+				// amount to charge — the reference is the amount, i.e. the negated result
+				if ref != nil && cl.want == core.DGe && ref.Referrers() != nil {
+					for _, r := range *ref.Referrers() {
+						if c, ok := r.(*ssa.Call); ok && core.CalleeName(c.Common()) == "Neg" && len(c.Common().Args) == 1 && c.Common().Args[0] == ref {
+							ref = c
+							break
+						}
+					}
+				}
+				n++
+				if ref == nil {
+					R.Add("C03-direction", cl.key, construct, P.Pos(P.InstrPos(ret)), false, "no call of solveConstantFunctionInvariant whose result is used")
+					continue
+				}
+				E.SetRef(ctx, ref, ret)
+				av = E.ValAt(ctx, ret.Results[0], ret)
+				ok := av.HasF && (av.F == cl.want || av.F == core.DEq) && !E.Exhausted
+				R.Add("C03-direction", cl.key, construct, P.Pos(P.InstrPos(ret)), ok,
+					fmt.Sprintf("computed relation amount %s solver result (want %s); value %s. %s", fOf(av), cl.want, av, notes(E)))
 			case "ref":
 				if cl.refIdx >= len(ret.Results) {
 					continue
